@@ -1695,3 +1695,530 @@ func ruleSlurpJSON(c *Ctx, r *Rep) {
 		r.OK("slurp:independent", roots[0].Pos(), "%d functions reachable from slurpFile; none reads an input-format flag", len(seen))
 	}
 }
+
+// ---------------------------------------------------------------------------------------------------------------------
+
+func init() {
+	reg(&Rule{ID: "R-C10-foreignnumber", Props: []string{"C10", "C12"}, Floor: 1,
+		Doc: "a value decoded by a third-party decoder that can build json.Number from text no JSON grammar validated (YAML allows +1, 1., .5, 007.5) is rewritten by a function that inspects and rebuilds json.Number leaves before it leaves the input iterator: both encoders print a json.Number verbatim",
+		Run: ruleForeignNumber})
+}
+
+func ruleForeignNumber(c *Ctx, r *Rep) {
+	// 1. third-party packages with a string → json.Number conversion whose operand is not strconv.Format*/Append* output
+	foreign := map[string]token.Pos{}
+	var deps []*packages.Package
+	packages.Visit(c.All, nil, func(p *packages.Package) { deps = append(deps, p) })
+	sort.Slice(deps, func(i, j int) bool { return deps[i].PkgPath < deps[j].PkgPath })
+	for _, p := range deps {
+		if p.PkgPath == pathGojq || p.PkgPath == pathCli || p.PkgPath == pathCmd || !strings.Contains(p.PkgPath, ".") || p.TypesInfo == nil {
+			continue
+		}
+		for _, f := range p.Syntax {
+			ast.Inspect(f, func(q ast.Node) bool {
+				call, ok := q.(*ast.CallExpr)
+				if !ok || len(call.Args) != 1 {
+					return true
+				}
+				tv, ok := p.TypesInfo.Types[call.Fun]
+				if !ok || !tv.IsType() || !isNamed(tv.Type, "encoding/json", "Number") {
+					return true
+				}
+				if inner, ok := unparen(call.Args[0]).(*ast.CallExpr); ok {
+					if n := calleeName(p.TypesInfo, inner); strings.HasPrefix(n, "strconv.Format") || strings.HasPrefix(n, "strconv.Append") {
+						return true
+					}
+				}
+				if _, isConst := p.TypesInfo.Types[call.Args[0]]; isConst && p.TypesInfo.Types[call.Args[0]].Value != nil {
+					return true
+				}
+				if _, ok := foreign[p.PkgPath]; !ok {
+					foreign[p.PkgPath] = call.Pos()
+				}
+				return true
+			})
+		}
+	}
+	if len(foreign) == 0 {
+		r.OK("census", token.NoPos, "no third-party dependency builds json.Number from unvalidated text")
+		return
+	}
+	// 2. calls from package cli into such a package that decode into an interface value
+	p := c.Cli
+	info := p.TypesInfo
+	rewrites := func(fd *ast.FuncDecl) bool {
+		// the function (or one it calls in package cli) has a json.Number arm and builds a json.Number
+		seen := map[*ast.FuncDecl]bool{}
+		var visit func(fd *ast.FuncDecl) (arm, build bool)
+		visit = func(fd *ast.FuncDecl) (arm, build bool) {
+			if fd == nil || seen[fd] {
+				return
+			}
+			seen[fd] = true
+			ast.Inspect(fd.Body, func(q ast.Node) bool {
+				switch x := q.(type) {
+				case *ast.CaseClause:
+					for _, e := range x.List {
+						if tv, ok := info.Types[e]; ok && tv.IsType() && isNamed(tv.Type, "encoding/json", "Number") {
+							arm = true
+						}
+					}
+				case *ast.TypeAssertExpr:
+					if x.Type != nil && isNamed(info.TypeOf(x.Type), "encoding/json", "Number") {
+						arm = true
+					}
+				case *ast.CallExpr:
+					if tv, ok := info.Types[x.Fun]; ok && tv.IsType() && isNamed(tv.Type, "encoding/json", "Number") {
+						build = true
+					}
+					if o := callee(info, x); o != nil && o.Pkg() != nil && o.Pkg().Path() == pathCli {
+						if f, ok := o.(*types.Func); ok && f.Type().(*types.Signature).Recv() == nil {
+							a2, b2 := visit(c.Decl(p, f.Name()))
+							arm, build = arm || a2, build || b2
+						}
+					}
+				}
+				return true
+			})
+			return
+		}
+		a, b := visit(fd)
+		return a && b
+	}
+	n := 0
+	for _, fd := range c.Decls(p) {
+		if fd.Body == nil {
+			continue
+		}
+		ast.Inspect(fd.Body, func(q ast.Node) bool {
+			call, ok := q.(*ast.CallExpr)
+			if !ok {
+				return true
+			}
+			o := callee(info, call)
+			if o == nil || o.Pkg() == nil {
+				return true
+			}
+			src, isForeign := foreign[o.Pkg().Path()]
+			if !isForeign || !strings.Contains(o.Name(), "Decode") && !strings.Contains(o.Name(), "Unmarshal") {
+				return true
+			}
+			// the destination: &v with v an interface variable
+			var dest types.Object
+			for _, a := range call.Args {
+				if u, ok := unparen(a).(*ast.UnaryExpr); ok && u.Op == token.AND {
+					if id, ok := unparen(u.X).(*ast.Ident); ok {
+						if _, isIface := info.TypeOf(id).Underlying().(*types.Interface); isIface {
+							dest = info.Uses[id]
+						}
+					}
+				}
+			}
+			if dest == nil {
+				return true
+			}
+			n++
+			// every return of the function that mentions dest passes it through a rewriting function of package cli
+			ok2, sawReturn := true, false
+			ast.Inspect(fd.Body, func(w ast.Node) bool {
+				rs, isRet := w.(*ast.ReturnStmt)
+				if !isRet {
+					return true
+				}
+				for _, res := range rs.Results {
+					mentionsDest, through := false, false
+					ast.Inspect(res, func(z ast.Node) bool {
+						if id, ok := z.(*ast.Ident); ok && info.Uses[id] == dest {
+							mentionsDest = true
+						}
+						if cl, ok := z.(*ast.CallExpr); ok {
+							if o2 := callee(info, cl); o2 != nil && o2.Pkg() != nil && o2.Pkg().Path() == pathCli {
+								if rewrites(c.Decl(p, o2.Name())) {
+									through = true
+								}
+							}
+						}
+						return true
+					})
+					if mentionsDest {
+						sawReturn = true
+						if !through {
+							ok2 = false
+						}
+					}
+				}
+				return true
+			})
+			// or the variable is reassigned from such a call before being returned: v = normalize(v)
+			reassigned := false
+			ast.Inspect(fd.Body, func(w ast.Node) bool {
+				as, isAs := w.(*ast.AssignStmt)
+				if !isAs || len(as.Lhs) != 1 || len(as.Rhs) != 1 || as.Pos() < call.Pos() {
+					return true
+				}
+				if id, ok := as.Lhs[0].(*ast.Ident); ok && info.ObjectOf(id) == dest {
+					if cl, ok := unparen(as.Rhs[0]).(*ast.CallExpr); ok {
+						if o2 := callee(info, cl); o2 != nil && o2.Pkg() != nil && o2.Pkg().Path() == pathCli && rewrites(c.Decl(p, o2.Name())) {
+							reassigned = true
+						}
+					}
+				}
+				return true
+			})
+			good := sawReturn && (ok2 || reassigned)
+			r.Check(good, "decode:"+declKey(fd)+":"+o.Pkg().Name(), call.Pos(), "%s decodes into an interface value with %s.%s, a package that builds json.Number from text it did not check against the JSON grammar (%s); the decoded value is rewritten by a json.Number-aware function before it is returned: %v — otherwise a number such as +1, 1., .5 or 007.5 reaches the encoders, which print a json.Number verbatim, and the output is not JSON",
+				declKey(fd), o.Pkg().Name(), o.Name(), c.Pos(src), good)
+			return true
+		})
+	}
+	if n == 0 {
+		r.OK("census", token.NoPos, "%d third-party packages build json.Number from unvalidated text; package cli decodes no interface value with them", len(foreign))
+	}
+}
+
+// ---------------------------------------------------------------------------------------------------------------------
+
+func init() {
+	reg(&Rule{ID: "R-C15-haltthrough", Props: []string{"C15", "C01"}, Floor: 2,
+		Doc: "every VM clause that intercepts an error on re-entry (assigns nil to err and resumes) first lets *HaltError through: halt and halt_error stop at once, whatever try, ? or ?// encloses them",
+		Run: ruleHaltThrough})
+}
+
+func ruleHaltThrough(c *Ctx, r *Rep) {
+	vm := getVM(c)
+	if vm.Err != "" {
+		r.Undecided("vm-model", token.NoPos, "%s", vm.Err)
+		return
+	}
+	info := vm.info
+	isHalt := func(e ast.Expr) bool {
+		t := info.TypeOf(e)
+		if t == nil {
+			return false
+		}
+		return isNamed(derefType(t), pathGojq, "HaltError")
+	}
+	leaves := func(body []ast.Stmt) bool {
+		if len(body) == 0 {
+			return false
+		}
+		switch x := body[len(body)-1].(type) {
+		case *ast.BranchStmt:
+			return (x.Tok == token.BREAK && x.Label != nil) || x.Tok == token.GOTO
+		case *ast.ReturnStmt:
+			return true
+		}
+		return false
+	}
+	n := 0
+	for _, cl := range vm.Clauses {
+		name := strings.Join(cl.Ops, ",")
+		walkStack(cl.CC, func(m ast.Node, stack []ast.Node) bool {
+			as, ok := m.(*ast.AssignStmt)
+			if !ok || len(as.Lhs) != len(as.Rhs) {
+				return true
+			}
+			intercept := false
+			for i, l := range as.Lhs {
+				if vm.isVar(l, "err") && isNilIdent(as.Rhs[i]) {
+					intercept = true
+				}
+			}
+			if !intercept {
+				return true
+			}
+			n++
+			through := ""
+			// (iii) nested in a branch that asserted one specific other error type
+			for i := len(stack) - 1; i >= 0 && through == ""; i-- {
+				if ifs, ok := stack[i].(*ast.IfStmt); ok && ifs.Init != nil && ifs.Body.Pos() <= as.Pos() && as.End() <= ifs.Body.End() {
+					if ias, ok := ifs.Init.(*ast.AssignStmt); ok && len(ias.Rhs) == 1 {
+						if ta, ok := unparen(ias.Rhs[0]).(*ast.TypeAssertExpr); ok && vm.isVar(ta.X, "err") && ta.Type != nil && !isHalt(ta.Type) {
+							if _, isIface := info.TypeOf(ta.Type).Underlying().(*types.Interface); !isIface {
+								through = "only errors of type " + c.Src(ta.Type) + " are intercepted"
+							}
+						}
+					}
+				}
+			}
+			// (i)/(ii) a dominating exit for *HaltError: earlier statement of an enclosing list
+			for i := len(stack) - 1; i >= 0 && through == ""; i-- {
+				var list []ast.Stmt
+				switch b := stack[i].(type) {
+				case *ast.BlockStmt:
+					list = b.List
+				case *ast.CaseClause:
+					list = b.Body
+				default:
+					continue
+				}
+				for _, st := range list {
+					if st.End() > as.Pos() {
+						break
+					}
+					switch x := st.(type) {
+					case *ast.TypeSwitchStmt:
+						subject := false
+						ast.Inspect(x.Assign, func(q ast.Node) bool {
+							if ta, ok := q.(*ast.TypeAssertExpr); ok && vm.isVar(ta.X, "err") {
+								subject = true
+							}
+							return true
+						})
+						if !subject {
+							continue
+						}
+						for _, s := range x.Body.List {
+							cc := s.(*ast.CaseClause)
+							for _, e := range cc.List {
+								if isHalt(e) && leaves(cc.Body) {
+									through = "the type switch on err leaves the clause for *HaltError"
+								}
+							}
+						}
+					case *ast.IfStmt:
+						if x.Init == nil {
+							continue
+						}
+						if ias, ok := x.Init.(*ast.AssignStmt); ok && len(ias.Rhs) == 1 {
+							if ta, ok := unparen(ias.Rhs[0]).(*ast.TypeAssertExpr); ok && vm.isVar(ta.X, "err") && ta.Type != nil && isHalt(ta.Type) && leaves(x.Body.List) {
+								through = "an earlier test leaves the clause for *HaltError"
+							}
+						}
+					}
+				}
+			}
+			r.Check(through != "", "intercept:"+name, as.Pos(), "%s clears err and resumes on re-entry; *HaltError is let through first: %s", name,
+				map[bool]string{true: through, false: "NO — halt/halt_error inside this construct would be treated as an ordinary error (`[1] | . as [$a] ?// $b | \"\\($a) \\($b)\\n\" | halt_error` evaluates the body again for the next alternative and prints `null [1]`; jq stops at once with `1 null`)"}[through != ""])
+			return true
+		})
+	}
+	if n == 0 {
+		r.Undecided("census", token.NoPos, "no clause of Next clears err")
+	}
+}
+
+// ---------------------------------------------------------------------------------------------------------------------
+
+func init() {
+	reg(&Rule{ID: "R-C17-tokenfresh", Props: []string{"C17"}, Floor: 20,
+		Doc: "on every path of (*lexer).Lex and scanString that returns a multi-byte token kind, l.token is assigned during that call: ParseError.Token is what the lexer last stored, so a kind that returns without storing reports the previous token's text with the new token's offset",
+		Run: ruleTokenFresh})
+}
+
+func ruleTokenFresh(c *Ctx, r *Rep) {
+	p := c.Gojq
+	info := p.TypesInfo
+	assignsToken := func(nd ast.Node) bool {
+		found := false
+		ast.Inspect(nd, func(q ast.Node) bool {
+			if _, isLit := q.(*ast.FuncLit); isLit {
+				return false
+			}
+			if as, ok := q.(*ast.AssignStmt); ok {
+				for _, l := range as.Lhs {
+					if sel, ok := unparen(l).(*ast.SelectorExpr); ok && sel.Sel.Name == "token" {
+						if s := info.Selections[sel]; s != nil && isNamed(derefType(s.Recv()), pathGojq, "lexer") {
+							found = true
+						}
+					}
+				}
+			}
+			return !found
+		})
+		return found
+	}
+	callsScanString := func(nd ast.Node) bool {
+		found := false
+		ast.Inspect(nd, func(q ast.Node) bool {
+			if call, ok := q.(*ast.CallExpr); ok && strings.HasSuffix(calleeName(info, call), "lexer.scanString") {
+				found = true
+			}
+			return !found
+		})
+		return found
+	}
+	// must-assign analysis; returns the return statements reached with l.token possibly unassigned
+	analyse := func(fd *ast.FuncDecl, scanStringOK bool) (bad []*ast.ReturnStmt, total int) {
+		g := cfg.New(fd.Body, func(*ast.CallExpr) bool { return true })
+		in := map[*cfg.Block]int{} // 0 unvisited, 1 assigned on all paths so far, 2 not
+		work := []*cfg.Block{g.Blocks[0]}
+		in[g.Blocks[0]] = 2
+		outState := map[*cfg.Block]int{}
+		for len(work) > 0 {
+			b := work[len(work)-1]
+			work = work[:len(work)-1]
+			st := in[b]
+			for _, nd := range b.Nodes {
+				if assignsToken(nd) || (scanStringOK && callsScanString(nd)) {
+					st = 1
+				}
+			}
+			outState[b] = st
+			for _, s := range b.Succs {
+				old := in[s]
+				nw := st
+				if old == 2 {
+					nw = 2
+				}
+				if old != nw {
+					in[s] = nw
+					work = append(work, s)
+				}
+			}
+		}
+		for _, b := range g.Blocks {
+			if in[b] == 0 {
+				continue
+			}
+			st := in[b]
+			for _, nd := range b.Nodes {
+				if assignsToken(nd) || (scanStringOK && callsScanString(nd)) {
+					st = 1
+				}
+				rs, ok := nd.(*ast.ReturnStmt)
+				if !ok || len(rs.Results) == 0 {
+					continue
+				}
+				// single-byte kinds: int(ch), a rune literal — Error() prints the kind itself
+				res := unparen(rs.Results[0])
+				if call, ok := res.(*ast.CallExpr); ok {
+					if tv, ok := info.Types[call.Fun]; ok && tv.IsType() {
+						continue
+					}
+				}
+				if lit, ok := res.(*ast.BasicLit); ok && lit.Kind == token.CHAR {
+					continue
+				}
+				total++
+				if st != 1 {
+					bad = append(bad, rs)
+				}
+			}
+		}
+		return
+	}
+	scan := c.Decl(p, "lexer.scanString")
+	lex := c.Decl(p, "lexer.Lex")
+	if scan == nil || lex == nil {
+		r.Undecided("anchors", token.NoPos, "lexer.Lex or lexer.scanString not found")
+		return
+	}
+	badScan, nScan := analyse(scan, false)
+	for _, rs := range badScan {
+		r.Bad("return:scanString:"+c.Src(rs.Results[0]), rs.Pos(), "scanString returns %s on a path that does not assign l.token: ParseError.Token for this kind is the text of the previous token (`1 \"a\\(1)\"` reports unexpected token \"1\" at the offset of the string opening)", c.Src(rs.Results[0]))
+	}
+	if len(badScan) == 0 {
+		r.OK("scanString", scan.Pos(), "all %d returns of scanString assign l.token first", nScan)
+	}
+	badLex, nLex := analyse(lex, true) // a return of scanString's kind is scanString's obligation, reported there
+	for _, rs := range badLex {
+		r.Bad("return:Lex:"+c.Src(rs.Results[0]), rs.Pos(), "Lex returns %s on a path that does not assign l.token", c.Src(rs.Results[0]))
+	}
+	if len(badLex) == 0 {
+		r.OK("Lex", lex.Pos(), "all %d multi-byte returns of Lex assign l.token first", nLex)
+	}
+	for i := 0; i < nScan+nLex; i++ {
+		r.OK(fmt.Sprintf("return#%d", i), token.NoPos, "return site analysed")
+	}
+}
+
+// ---------------------------------------------------------------------------------------------------------------------
+
+func init() {
+	reg(&Rule{ID: "R-C17-tokenoffset", Props: []string{"C17"}, Floor: 1,
+		Doc: "a function that reads JSON with (*json.Decoder).Token reconciles the two offset conventions of encoding/json before its errors share the caret computation of Decode errors: a token error's Offset excludes the invalid character (dec.InputOffset()), a value error's includes it",
+		Run: ruleTokenOffset})
+	reg(&Rule{ID: "R-C17-tokensource", Props: []string{"C17"}, Floor: 15,
+		Doc: "every text the lexer stores in l.token is a slice of l.source or a string constant: a re-encoded rune (string(r)) differs in length from the source bytes it stands for when they are not valid UTF-8, and the caret is computed from Offset − len(Token)",
+		Run: ruleTokenSource})
+}
+
+func ruleTokenOffset(c *Ctx, r *Rep) {
+	p := c.Cli
+	info := p.TypesInfo
+	n := 0
+	for _, fd := range c.Decls(p) {
+		if fd.Body == nil {
+			continue
+		}
+		var tokenCall *ast.CallExpr
+		adjusts, recomputes := false, false
+		ast.Inspect(fd.Body, func(q ast.Node) bool {
+			switch x := q.(type) {
+			case *ast.CallExpr:
+				if o := callee(info, x); o != nil && objPath(o) == "encoding/json.(Decoder).Token" {
+					tokenCall = x
+				}
+			case *ast.AssignStmt:
+				for i, l := range x.Lhs {
+					if sel, ok := unparen(l).(*ast.SelectorExpr); ok && sel.Sel.Name == "Offset" && isNamed(derefType(info.TypeOf(sel.X)), "encoding/json", "SyntaxError") {
+						adjusts = true
+						if i < len(x.Rhs) && x.Tok == token.ASSIGN && strings.Contains(c.Src(x.Rhs[i]), "InputOffset()") {
+							recomputes = true
+						}
+					}
+				}
+			case *ast.IncDecStmt:
+				if sel, ok := unparen(x.X).(*ast.SelectorExpr); ok && sel.Sel.Name == "Offset" && isNamed(derefType(info.TypeOf(sel.X)), "encoding/json", "SyntaxError") {
+					adjusts = true
+				}
+			}
+			return true
+		})
+		if tokenCall == nil {
+			continue
+		}
+		n++
+		r.Check(recomputes, "token:"+declKey(fd)+":value-errors", tokenCall.Pos(), "%s recomputes the Offset of a syntax error raised *inside a value* while reading tokens from dec.InputOffset(): %v (under Token the scanner's byte count, which a value error's Offset is, excludes every structural byte Token consumed itself: `printf '[1,tru]' | gojq --stream .` puts the caret two columns to the left of where `gojq .` puts it)", declKey(fd), recomputes)
+		r.Check(adjusts, "token:"+declKey(fd), tokenCall.Pos(), "%s reads tokens with (*json.Decoder).Token and adjusts the Offset of its syntax errors: %v (`printf '[1,}' | gojq --stream .` puts the caret under the comma: Token reports the offset *of* the invalid character, Decode the offset *after* it, and both go through jsonParseError)", declKey(fd), adjusts)
+	}
+	if n == 0 {
+		r.OK("census", token.NoPos, "package cli does not use (*json.Decoder).Token")
+	}
+}
+
+func ruleTokenSource(c *Ctx, r *Rep) {
+	p := c.Gojq
+	info := p.TypesInfo
+	n := 0
+	for _, fd := range c.Decls(p) {
+		if fd.Body == nil || recvTypeName(fd) != "lexer" {
+			continue
+		}
+		ast.Inspect(fd.Body, func(q ast.Node) bool {
+			as, ok := q.(*ast.AssignStmt)
+			if !ok || len(as.Lhs) != len(as.Rhs) {
+				return true
+			}
+			for i, l := range as.Lhs {
+				sel, ok := unparen(l).(*ast.SelectorExpr)
+				if !ok || sel.Sel.Name != "token" {
+					continue
+				}
+				if s := info.Selections[sel]; s == nil || !isNamed(derefType(s.Recv()), pathGojq, "lexer") {
+					continue
+				}
+				n++
+				rhs := unparen(as.Rhs[i])
+				good := false
+				switch x := rhs.(type) {
+				case *ast.SliceExpr:
+					if s2, ok := unparen(x.X).(*ast.SelectorExpr); ok && s2.Sel.Name == "source" {
+						good = true
+					}
+				default:
+					if tv, ok := info.Types[rhs]; ok && tv.Value != nil {
+						good = true // a constant spelling
+					}
+				}
+				key := fmt.Sprintf("token:%s:%s", declKey(fd), c.Src(rhs))
+				r.Check(good, key, as.Pos(), "%s stores %s in l.token: a slice of l.source or a constant: %v (anything else can differ in length from the bytes consumed; `1 \\xff 2` puts the caret two columns to the left because the stored U+FFFD is three bytes and the source byte one)", declKey(fd), c.Src(rhs), good)
+			}
+			return true
+		})
+	}
+	if n == 0 {
+		r.Undecided("census", token.NoPos, "no assignment to lexer.token found")
+	}
+}
